@@ -1087,6 +1087,38 @@ func c07RandomRace(r *vRand) []string {
 	return lines
 }
 
+// c07ElectionRaces: a leader report that arrives WHILE the election it no longer belongs to is in flight. The first
+// request of the race completes the quorum (the witnesses are used up, the leader change is parked on the Raft lock), the
+// second one is a report of another in-sync follower naming the leader that is about to be replaced: it passes its
+// incoming check on the same state. After the change every other replica reports the NEW leader once, one after the
+// other: the oracle judges every further leader change on the reports that named the pair it replaces (a report about
+// the old leader that survives the change makes the new leader fall one report early).
+func c07ElectionRaces() [][]string {
+	var out [][]string
+	for _, reps := range [][]string{{"b", "c", "d", "e"}, {"b", "c", "d", "e", "f"}, {"b", "c", "d"}} {
+		followers := reps[1:]
+		need := (len(reps)-1)/2 + 1 // reports that depose the leader
+		if need > len(followers)-1 {
+			continue
+		}
+		for late := need; late < len(followers); late++ {
+			lines := []string{"create s " + strings.Join(reps, ",") + " b"}
+			for i := 0; i < need-1; i++ {
+				lines = append(lines, "report s "+followers[i]+" cur")
+			}
+			lines = append(lines, "race s | report "+followers[need-1]+" cur | report "+followers[late]+" cur")
+			for _, order := range [][]string{reps, {reps[len(reps)-1], reps[0], reps[1], reps[2]}} {
+				c := append([]string(nil), lines...)
+				for _, x := range order {
+					c = append(c, "report s "+x+" cur")
+				}
+				out = append(out, c)
+			}
+		}
+	}
+	return out
+}
+
 // ---------- timing scenarios (real, short ReplicaMaxLeaderTimeout) ----------
 
 func (cx *c07Ctx) waitNoEntry(p string, deadline time.Duration) (time.Duration, bool) {
@@ -1431,6 +1463,10 @@ func TestVerifC07(t *testing.T) {
 	for i := 0; i < nrace; i++ {
 		res.Dist("race")
 		cx.judge(c07RandomRace(r), true, "race")
+	}
+	for _, c := range c07ElectionRaces() {
+		res.Dist("race:report-during-election")
+		cx.judge(c, true, "race")
 	}
 	for tag, k := range cx.tags {
 		res.Note(fmt.Sprintf("cases failing with tag %s: %d", tag, k))
